@@ -1121,7 +1121,8 @@ fn fspec(kind: usize, quirks: bool) -> BoxedStrategy<FSpec> {
             .boxed(),
         11 => vint().prop_map(|v| FSpec::DataBlocked { v }).boxed(),
         12 => (vint(), vint()).prop_map(|(sid, v)| FSpec::StreamDataBlocked { sid, v }).boxed(),
-        13 => (any::<bool>(), vint()).prop_map(|(uni, v)| FSpec::StreamsBlocked { uni, v }).boxed(),
+        // values above 2^60 are specified to be rejected (RFC 9000 §19.14): outside the domain
+        13 => (any::<bool>(), vint()).prop_map(|(uni, v)| FSpec::StreamsBlocked { uni, v: v.min(1 << 60) }).boxed(),
         14 => (vint(), any::<u16>(), 1u8..=20, any::<u8>())
             .prop_map(|(seq, r, cid_len, seed)| FSpec::NewCid {
                 seq,
@@ -1365,7 +1366,7 @@ fn enumerate_frames(deep: bool, emit: &mut dyn FnMut(FSpec)) {
         emit(FSpec::RetireCid { seq: *v });
         emit(FSpec::RemoveAddress { seq: *v });
         for uni in [false, true] {
-            emit(FSpec::StreamsBlocked { uni, v: *v });
+            emit(FSpec::StreamsBlocked { uni, v: (*v).min(1 << 60) });
         }
     }
     for v in [0, 63, 64, 16383, 16384, (1 << 30) - 1, 1 << 30, (1 << 60) - 1, 1 << 60] {
